@@ -1,4 +1,5 @@
 import XdsVerif.Proofs.Conc
+import XdsVerif.Proofs.Sys
 import XdsVerif.Properties.C05
 import XdsVerif.Properties.C01
 import XdsVerif.Generated.Facts
@@ -18,6 +19,8 @@ open XdsVerif.Conc
 abbrev V : Variant := Generated.getVariant
 
 theorem facts_get : V = expectedVariant := C05.facts_get
+
+theorem facts_get_body : Generated.getFingerprint = expectedGetFingerprint := C05.facts_get_body
 
 /-- **linearization point**: a value is returned by a step of the lookup itself (so between its start and its
 return) at which the cache holds exactly that value; hence no value that was never current, and none that was
@@ -143,6 +146,55 @@ theorem error_has_witness (tn : Nat → Name) (s s' : S) (l : Lbl) (i : Nat)
     split at hs <;> cases hs
     exact hnd _ hd
 
+
+/-! ### atomicity of a response against the cleaner and other lookups (`Model/Sys.lean`)
+
+A response handler runs three lock sections: acknowledge (`c.mu`), interest filter (`c.mu.RLock`), `UpdateResource`
+(`m.mu`). When they run back to back the composed system is a history of the client state machine (`Sys.run_seq`),
+for which a cached name is always subscribed. -/
+
+/-- schedules whose handlers are not torn apart: whatever lookups, sender steps, evictions and reconnects are
+interleaved *between* responses, the state is one the sequential state machine reaches, hence a cached name is
+subscribed -/
+theorem cached_is_subscribed_atomic (cfg : Seq.Cfg) (T : Seq.RType) (tn : Nat → Name) (ls : List Sys.Lbl)
+    (s : Sys.St) (e : Sys.Emit) (ha : Sys.atomic ls = true) (h : Sys.run cfg V T tn Sys.init ls = some (s, e))
+    (rt : Seq.RType) (n : Name) (v : Val) (hc : s.seq.cache rt n = some v) :
+    ((s.seq.watched rt).getD []).contains n = true :=
+  Seq.cached_is_subscribed cfg e.seq s.seq (Sys.run_seq cfg V T tn ls Sys.init s e rfl ha h).1 rt n v hc
+
+def ghostCfg : Seq.Cfg :=
+  { sendAborts := true, metaInitNow := true, ndsRequired := false, ns := "default".toList, dom := "cluster.local".toList }
+def ghostR1 : Seq.Resp := { rt := .eds, version := "1", nonce := "a", slots := [.good "e1" "v1"] }
+def ghostR2 : Seq.Resp := { rt := .eds, version := "2", nonce := "b", slots := [.good "e1" "v2"] }
+def ghostR3 : Seq.Resp := { rt := .eds, version := "3", nonce := "c", slots := [.good "e1" "v3"] }
+/-- a lookup fetches `e1`; 31 s later the cleaner's eviction of `e1` lands between the interest filter and
+`UpdateResource` of the next response; a further response follows -/
+def ghostSched : List Sys.Lbl :=
+  [.getStart 0 0, .getRegister 0, .op (.senderSend false),
+   .op (.push ghostR1 0), .getWake 0, .getReread 0 0, .op (.senderSend false),
+   .recvAck ghostR2, .recvFilter, .op (.evict .eds "e1" 31), .recvApply 31,
+   .op (.senderSend false), .op (.senderSend false), .op (.push ghostR3 40), .getStart 1 41]
+
+/-- **S15 (genuine defect, recorded as a known finding): a torn handler is not atomic against the cleaner.**
+When the eviction of a name lands between the interest filter and `UpdateResource`, the update re-creates the
+entry the cleaner just removed and unsubscribed: the name is cached but no longer in the interest set (a state no
+sequential order of the operations reaches, by `cached_is_subscribed_atomic`), every later response is filtered
+for it (`v3` never arrives), and lookups are served the stale `v2` for as long as they keep the entry alive -/
+theorem s15_ghost_entry :
+    (Sys.run ghostCfg V .eds (fun _ => "e1") Sys.init ghostSched).map
+      (fun (s, _) => (s.seq.cache .eds "e1", s.seq.watched .eds, s.conc.pc 1))
+    = some (some "v2", some [], .done (.val "v2")) := by decide
+
+/-- the same operations with the handler's sections back to back: evicted, unsubscribed, and the next lookup
+has to fetch again -/
+example :
+    (Sys.run ghostCfg V .eds (fun _ => "e1") Sys.init
+      [.getStart 0 0, .getRegister 0, .op (.senderSend false),
+       .op (.push ghostR1 0), .getWake 0, .getReread 0 0, .op (.senderSend false),
+       .op (.push ghostR2 31), .op (.evict .eds "e1" 62), .getStart 1 63]).map
+      (fun (s, _) => (s.seq.cache .eds "e1", s.seq.watched .eds, s.conc.pc 1))
+    = some (none, some [], .missed) := by decide
+
 /-- **policy before data**: inside one locked region of `UpdateResource` the registered handlers run before the
 cache write that makes the resource visible (regenerated statement order), so by the time a lookup exposes a
 resource every handler has completed for the update that delivered it -/
@@ -166,6 +218,66 @@ def acyclic (edges : List (String × String)) : Bool :=
 intra-package call graph) have no cycle — `m.mu → c.mu → r.mu` — so no set of goroutines can wait for each
 other's mutexes -/
 theorem lock_order_acyclic : acyclic Generated.lockEdges = true := by decide
+
+
+/-! ### from the lock order to the absence of mutex deadlocks (any number of goroutines) -/
+
+/-- every nesting edge of the source goes up in the rank `m.mu < c.mu < r.mu` -/
+def lockRank (l : String) : Nat := if l = "m.mu" then 0 else if l = "c.mu" then 1 else if l = "r.mu" then 2 else 3
+
+theorem lock_edges_ranked : ∀ e ∈ Generated.lockEdges, lockRank e.1 < lockRank e.2 := by decide
+
+/-- **a lock order excludes circular waits** (general lemma: any set of locks, any number of threads). `wants t`
+is the mutex thread `t` is blocked on, `holds t l` says `t` holds `l`. If every blocked thread only waits for a
+mutex ranked above everything it holds (the discipline the nesting edges express), then among any non-empty finite
+set of blocked threads at least one waits for a mutex that no thread of the set holds: the set cannot be a deadlock -/
+theorem ordered_locks_no_circular_wait {Thread Lock : Type} (rank : Lock → Nat)
+    (wants : Thread → Option Lock) (holds : Thread → Lock → Prop)
+    (disc : ∀ t l l', wants t = some l → holds t l' → rank l' < rank l)
+    (D : List Thread) (hne : D ≠ []) (hblocked : ∀ t ∈ D, (wants t).isSome = true) :
+    ∃ t ∈ D, ∃ l, wants t = some l ∧ ∀ t' ∈ D, ¬ holds t' l := by
+  -- take a thread of D whose wanted mutex has maximal rank
+  have hmax : ∃ t ∈ D, ∃ l, wants t = some l ∧ ∀ t' ∈ D, ∀ l', wants t' = some l' → rank l' ≤ rank l := by
+    induction D with
+    | nil => exact absurd rfl hne
+    | cons a rest ih =>
+      have ha : (wants a).isSome = true := hblocked a (by simp)
+      obtain ⟨la, hla⟩ := Option.isSome_iff_exists.mp ha
+      by_cases hr : rest = []
+      · subst hr
+        refine ⟨a, by simp, la, hla, ?_⟩
+        intro t' ht' l' hl'
+        simp only [List.mem_singleton] at ht'
+        subst ht'; rw [hla] at hl'; cases hl'; exact Nat.le_refl _
+      · obtain ⟨t, ht, l, hl, hm⟩ := ih hr (fun t ht => hblocked t (by simp [ht]))
+        by_cases hcmp : rank l ≤ rank la
+        · refine ⟨a, by simp, la, hla, ?_⟩
+          intro t' ht' l' hl'
+          simp only [List.mem_cons] at ht'
+          rcases ht' with rfl | ht'
+          · rw [hla] at hl'; cases hl'; exact Nat.le_refl _
+          · exact Nat.le_trans (hm t' ht' l' hl') hcmp
+        · refine ⟨t, by simp [ht], l, hl, ?_⟩
+          intro t' ht' l' hl'
+          simp only [List.mem_cons] at ht'
+          rcases ht' with rfl | ht'
+          · rw [hla] at hl'; cases hl'; omega
+          · exact hm t' ht' l' hl'
+  obtain ⟨t, ht, l, hl, hm⟩ := hmax
+  refine ⟨t, ht, l, hl, ?_⟩
+  intro t' ht' hh
+  -- t' is blocked too, on a mutex ranked strictly above `l`, contradicting maximality
+  obtain ⟨l', hl'⟩ := Option.isSome_iff_exists.mp (hblocked t' ht')
+  have h1 := disc t' l' l hl' hh
+  have h2 := hm t' ht' l' hl'
+  omega
+
+/-- non-vacuity: two goroutines in the two nestings the source has (a lookup holding `m.mu` waiting for `c.mu`; the
+receiver holding `c.mu` waiting for `r.mu`) satisfy the discipline; the reverse nesting would not -/
+example : ∀ t l l', (fun t : Bool => if t then some "c.mu" else some "r.mu") t = some l →
+    (fun (t : Bool) (l : String) => if t then l = "m.mu" else l = "c.mu") t l' → lockRank l' < lockRank l := by
+  intro t l l' h1 h2
+  cases t <;> simp at h1 h2 <;> subst h1 <;> subst h2 <;> decide
 
 /-- no reachable state of the interleaving model has a stuck lookup -/
 theorem no_stuck_lookup (tn : Nat → Name) (ls : List Lbl) (s : S) (h : runL V tn init ls = some s) (i : Nat)
